@@ -436,6 +436,8 @@ class Core:
                                     if blk is None:
                                         return None
                                     drained = False
+                                    # nothing between the flag and the drain may leave the block (continue / break / return / raise)
+                                    i_flag = [k for k, y in enumerate(blk) if y is n][0]
                                     for st in blk:
                                         if isinstance(st, ast.Expr) and isinstance(st.value, ast.Call) and isinstance(st.value.func, ast.Attribute) \
                                                 and st.value.func.attr in drains and ast.unparse(st.value.func.value) == coll \
@@ -443,6 +445,18 @@ class Core:
                                             drained = True
                                         if isinstance(st, ast.Delete) and any(isinstance(t2, ast.Subscript) and ast.unparse(t2.value) == coll for t2 in st.targets):
                                             drained = True
+                                    if drained:
+                                        # nothing between the flag and the drain may leave the block (continue / break / return / raise)
+                                        i_dr = [k for k, st in enumerate(blk) if (isinstance(st, ast.Expr) and isinstance(st.value, ast.Call)
+                                                and isinstance(st.value.func, ast.Attribute) and st.value.func.attr in drains
+                                                and ast.unparse(st.value.func.value) == coll) or isinstance(st, ast.Delete)]
+                                        ok_pair = False
+                                        for j in i_dr:
+                                            lo_, hi_ = min(i_flag, j), max(i_flag, j)
+                                            if not any(isinstance(x, (ast.Continue, ast.Break, ast.Return, ast.Raise))
+                                                       for st0 in blk[lo_:hi_ + 1] for x in [st0] + list(own_nodes(st0))):
+                                                ok_pair = True
+                                        drained = ok_pair
                                     if not drained:
                                         return None
                                 elif n is not body[0] and not (n in body):
@@ -1617,6 +1631,8 @@ def check_function(core: Core, sink, f: Func, in_scope=True, seen=None, roots_pa
                 lab = _label(f, "for", fo, seen)
                 _check_range(core, sink, f, fo, it, lab, lambda: core.k1_for(f, fo), undecided,
                              lambda: core.definite_witness(f, fo, [], kind="for"))
+            elif isinstance(it, ast.Call) and isinstance(it.func, ast.Name) and it.func.id == "iter" and len(it.args) == 2:
+                _check_callable_iter(core, sink, f, fo, seen, undecided)
             else:
                 _check_collection_for(core, sink, f, fo, seen, undecided)
         for c in comps:
@@ -1664,6 +1680,36 @@ def _check_range(core, sink, f, node, it, lab, k1, undecided, witness):
             "the count is not known to come from the input" if not prov else "no definite non-consuming path was found", cert.why)))
 
 
+def _check_callable_iter(core, sink, f, fo, seen, undecided):
+    """`for x in iter(callable, SENTINEL)` is `while True: x = callable(); if x == SENTINEL: break; body` -- it needs a
+    certificate like any other unbounded loop"""
+    lab = _label(f, "for", fo, seen)
+    inst = "%s: %s" % (f.qualname, lab)
+    sink.count("callable_iter_loops")
+    run0 = _Run(core.sa, f)
+    sr = run0._sentinel_read_iter(fo.iter)
+    if sr is not None:
+        kind = core.sa.read_kind(ast.parse(sr[0], mode="eval").body, f)
+        sink.check("iter/certificate", inst, True, f, lab, "", node=fo,
+                   detail="K1 -- the iteration ends when `%s.read()` returns the empty value: the sentinel has the type the stream yields (%s)" % (sr[0], kind))
+        return
+    cert = core.k1_for(f, fo)
+    if cert:
+        sink.check("iter/certificate", inst, True, f, lab, "", node=fo, detail="%s -- %s" % (cert.kind, cert.detail))
+        return
+    if run0.sentinel_never_matches(fo.iter) and not cert.unresolved:
+        w = core.definite_witness(f, fo, [], kind="for")
+        if w:
+            sink.check("iter/certificate", inst, False, f, lab,
+                       "the iteration cannot end at end of input: `read()` of this stream returns %s, which never equals the sentinel `%s` "
+                       "(b'' != '' in Python 3), and an iteration need not consume anything: %s"
+                       % ("bytes" if isinstance(fo.iter.args[1].value, str) else "str", _u(fo.iter.args[1], 20), w),
+                       node=fo, witness=dict(path=w))
+            return
+    sink.count("undecided")
+    undecided.append((inst, "no certificate for the callable-driven iteration (whether the callable ever returns the sentinel is not established): %s" % cert.why))
+
+
 def _check_collection_for(core, sink, f, fo, seen, undecided):
     """`for x in C`: the body must not grow C (finite-collection certificate K4 for `for` loops);
     a growing work list is not input driven by itself -> undecided, never a finding"""
@@ -1693,7 +1739,9 @@ FIXTURE_EXPECT = {"while_bad": "finding", "while_ok": "cert", "while_eof_exit_ok
                   "countdown_ok": "cert", "shift_ok": "cert", "len_bound_ok": "cert", "guard_bounded_ok": "cert",
                   "flag_drain_ok": "cert", "opaque_seek_undecided": "undecided", "value_loop_undecided": "undecided",
                   "retry_state_undecided": "undecided", "carried_flag_irrelevant_bad": "finding",
-                  "length_checked_ok": "cert", "indexed_read_undecided": "undecided", "from_bytes_bad": "finding"}
+                  "length_checked_ok": "cert", "indexed_read_undecided": "undecided", "from_bytes_bad": "finding",
+                  "sentinel_bytes_ok": "cert", "sentinel_wrong_type_bad": "finding", "sentinel_unknown_stream_undecided": "undecided",
+                  "eq_literal_wrong_type_bad": "finding", "walrus_ne_wrong_type_bad": "finding"}
 
 
 def fixture_selfcheck(ctx):
